@@ -503,7 +503,7 @@ fn stale_spill_read_trigger(model: &ironcalc_base::Model) -> bool {
     kit::spill_triggers(model).demanded_cell_reads_spill
 }
 
-pub fn check_spill(case: &SpillCase, avoid_stale: bool, avoid_empty: bool) -> Outcome {
+pub fn check_spill(case: &SpillCase, avoid_stale: bool, avoid_empty: bool, avoid_competing: bool) -> Outcome {
     let mut o = Outcome::pass();
     let built = panics::catch(|| {
         let mut m = kit::new_model(1);
@@ -543,6 +543,28 @@ pub fn check_spill(case: &SpillCase, avoid_stale: bool, avoid_empty: bool) -> Ou
     if avoid_empty && trig.anchor_phase_reads_blocked_anchor {
         o.excluded += 1;
         return o.label("excluded:blocked-dynamic-array-read-in-anchor-phase");
+    }
+    if avoid_competing {
+        // listed under C07 (competing dynamic anchors): an anchor that shows #SPILL! although no
+        // typed cell lies in the block it would fill is blocked by another array's spill; which
+        // of the two spills depends on the pass
+        let typed: BTreeSet<Pos> = case.cells.iter().map(|c| (0u32, c.r, c.c)).collect();
+        let competing = kit::all_dynamic_anchors(&model).into_iter().any(|(a, w, h)| {
+            if !matches!(cell_value(&model, a.0, a.1, a.2), TV::Err(k) if k == "#SPILL!") || (w, h) != (1, 1) {
+                return false;
+            }
+            match kit::reference_result(&model, a) {
+                kit::RefResult::Array(rw, rh, _) => {
+                    !(a.1..a.1 + rh).any(|r| (a.2..a.2 + rw).any(|c| (r, c) != (a.1, a.2) && typed.contains(&(a.0, r, c))))
+                }
+                kit::RefResult::SpillInIsolation => false,
+                _ => true,
+            }
+        });
+        if competing {
+            o.excluded += 1;
+            return o.label("excluded:competing-dynamic-anchors");
+        }
     }
     let texts: std::collections::HashMap<Pos, &str> = case.cells.iter().map(|c| ((0u32, c.r, c.c), c.t.as_str())).collect();
     let g = Graph::build(&model);
@@ -1010,11 +1032,12 @@ pub fn run(ctx: &Ctx) {
     ctx.campaign("workbooks", cases, || case_strategy(cells, avoid_empty), move |c: &Case| check(c, avoid_empty), enc);
     ctx.campaign("chains", chains, || chain_strategy(chain_n), check_chain, |c: &Chain| serde_json::to_value(c).unwrap_or(Value::Null));
     let avoid = ctx.avoid("c05-scalar-under-anchor-reads-spill");
+    let avoid_competing = ctx.avoid("c07-competing-dynamic-anchors");
     ctx.campaign(
         "spill-readers",
         spills,
         spill_strategy,
-        move |c: &SpillCase| check_spill(c, avoid, avoid_empty),
+        move |c: &SpillCase| check_spill(c, avoid, avoid_empty, avoid_competing),
         |c: &SpillCase| serde_json::to_value(c).unwrap_or(Value::Null),
     );
 }
@@ -1037,7 +1060,7 @@ fn replay_inner(ctx: &Ctx, campaign: &str, case: &Value) -> Result<Outcome, Stri
             let c: SpillCase = serde_json::from_value(case.clone()).map_err(|e| e.to_string())?;
             // replays are never steered away from their own trigger
             let _ = ctx;
-            Ok(check_spill(&c, false, false))
+            Ok(check_spill(&c, false, false, false))
         }
         "cse-self-read" => {
             let c: CseCase = serde_json::from_value(case.clone()).map_err(|e| e.to_string())?;
